@@ -237,7 +237,7 @@ def main():
         tot, levels, samples, st, len(items),
         "program = (topology, option vector); per program: NumPy (all paths of the joint exploration of both real steps), SX and MX; one query per "
         "next-state component: Step_p(x) == Clamp_next(p, Step_off(Clamp_init(p, x))); non-trivial = not closed syntactically",
-        {"bounds": {"family": "K (18 curated)" + (" x all 63 non-empty option vectors + E(3,4) x rotating vectors" if args.thorough else " x {all-on + 4 rotating of 13 vectors}"),
+        {"bounds": {"family": "K (20 curated)" + (" x all 63 non-empty option vectors + E(3,4) x rotating vectors" if args.thorough else " x {all-on + 4 rotating of 13 vectors}"),
                     "values": "ALL reals incl. negative (only non-zero denominators assumed)"},
          "functions_encoded": ["Network.step option forwarding", "Link.init_vars / step_dynamics clamps", "MainstreamOrigin/MeteredOnRamp(.simplified).init_vars / step_dynamics clamps",
                                "Engine.max (numpy, casadi)", "casadi _filter_vars (symbol recovery under clamps)"]})
